@@ -5,7 +5,7 @@ import json, subprocess
 CLAIMS = {
  "C02": dict(
   level="exploration", ref="DESIGN.md §3.1",
-  text="Seeded deterministic simulation of the conversation with the second party: the real engine and dockerlog.Querier run against a simulated daemon whose concurrent ContainerLogs calls are released in a seeded order; the recorded transport history (which containers were asked, with which since/until/options) and the labels of every returned line are judged against a small reference selection model. Sampling over inventories, selectors and ranges: evidence, not proof.",
+  text="Seeded deterministic simulation of the conversation with the second party: the real engine and dockerlog.Querier run against a simulated daemon whose concurrent ContainerLogs calls are released in a seeded order; the recorded transport history (which containers were asked, with which since/until/options) and the labels of every returned line are judged against a small reference selection model. Sampling over inventories, selectors and ranges: evidence, not proof. A returned line must carry every label of its container and no non-empty label that container does not have (labels left over from a container read by an earlier evaluation are a violation; replay files of such findings carry the worker's history).",
   note="Trusted: the reference selection model (sim/verifsim/refsel.go: exact (in)equality, Go regexp anchored as ^(?:re)$, missing label = empty string), the reference label derivation incl. key sanitising (world.go), and the reading of the daemon's since/until. Container inventories carry at most one name; Docker label keys never collide after sanitising. Regexes follow the property's anchor (^(?:re)$, Go syntax, no dot-all). An empty-valued label on a line counts as present or absent alike.",
   technique="deterministic simulation: simulated Docker daemon + seeded release scheduler; transport-history oracle against a reference selection model"),
  "C03": dict(
@@ -20,14 +20,14 @@ CLAIMS = {
   technique="deterministic simulation: seeded/enumerated release orders of parked ContainerLogs calls; conservation, order and cross-schedule equality oracles"),
  "C10": dict(
   level="exploration", ref="DESIGN.md §3.4",
-  text="Hash-map iteration order while a sample's label set is materialised is put behind a seam (build tag verif) and driven by the PRNG, one permutation per LabelSet.Range call; every plan runs under the sorted order and three seeded orders. Results are compared with the partition of the same samples obtained through the log path and projected textbook-style, per step. Sampling over worlds and queries: evidence, not proof.",
+  text="Hash-map iteration order while a sample's label set is materialised is put behind a seam (build tag verif) and driven by the PRNG, one permutation per LabelSet.Range call; every plan runs under the sorted order and three seeded orders. Results are compared with the partition of the same samples obtained through the log path and projected textbook-style, per step. Sampling over worlds and queries: evidence, not proof. A quarter of the plans run some variants on a used Engine: the same Engine object has evaluated the query, or a differently grouped sibling over the same selection, once or twice before (Variant.Warmup).",
   note="Trusted: the engine's log path as the reference for which labels a sample carries (its stream key is a sorted, quoted rendering), textbook by/without projection, sample timestamps strictly off window edges (so C09's edge semantics never matter), integer-valued samples. Two readings of an empty-valued label are accepted if applied consistently (a label of its own; no label at all). by-over-by nesting is not generated (its semantics is C11's).",
-  technique="deterministic simulation: PRNG-driven map-iteration order at a guarded seam; partition oracle from the log path"),
+  technique="deterministic simulation: PRNG-driven map-iteration order at a guarded seam; partition oracle from the log path; histories of several evaluations on one long-lived Engine"),
  "C14": dict(
   level="fault_enumeration", ref="DESIGN.md §3.5",
-  text="Query shape x fault x position x completion order, all owned by the simulator. About a fifth of the plans enumerate every single fault over everything the fault-free twin touched (each byte offset of each stream for cut and read error, each frame x corruption kind, each open call x release order, each list call, cancellation at each transport event); the others carry one or two seeded faults in larger worlds. Oracle: evaluation may succeed although a failure was delivered to it only if its answer is exactly the fault-free twin's (anything else is a silently truncated result; never a panic or hang), an error needs a delivered failure or an invalid query, and every reader handed out - also to requests answered after evaluation returned - must have been closed; where reads are under the scheduler Close calls are too, and a reader still open at the instant the evaluation call returns (closed later by a goroutine nobody waits for) is a violation. Enumeration per sampled world, sampling across worlds and templates: evidence, not proof.",
+  text="Query shape x fault x position x completion order, all owned by the simulator. About a fifth of the plans enumerate every single fault over everything the fault-free twin touched (each byte offset of each stream for cut and read error, each frame x corruption kind, each open call x release order, each list call, cancellation at each transport event); the others carry one or two seeded faults in larger worlds. Oracle: evaluation may succeed although a failure was delivered to it only if its answer is exactly the fault-free twin's (anything else is a silently truncated result; never a panic or hang), an error needs a delivered failure or an invalid query, and every reader handed out - also to requests answered after evaluation returned - must have been closed; where reads are under the scheduler Close calls are too, and a reader still open at the instant the evaluation call returns (closed later by a goroutine nobody waits for) is a violation. Enumeration per sampled world, sampling across worlds and templates: evidence, not proof. Clause (v), bounded liveness after faults stop: for a quarter of the engine-level cases the faulted evaluation is followed, on the same Engine and after every fault has been switched off, by one or two further evaluations, which must succeed with the complete fault-free answer and leave no reader open.",
   note="Trusted: what the simulated stream delivered (a decoder may read ahead: a delivered failure that cannot have mattered may go unreported), the classification of a cut at a frame boundary or inside a header as a clean end (C03), sticky EOF/errors as net/http bodies behave.",
-  technique="deterministic simulation with fault injection: single-fault enumeration and seeded multi-fault runs over release orders; fault-free-twin oracle and close accounting"),
+  technique="deterministic simulation with fault injection: single-fault enumeration and seeded multi-fault runs over release orders; fault-free-twin oracle and close accounting; after-faults-stop re-evaluation on the same Engine"),
  "C16": dict(
   level="exploration", ref="DESIGN.md §3.6",
   text="The real cobra command runs at a simulated wall-clock instant (synctest fake clock) against the simulated daemon; the since/until of the ContainerLogs call - the only place the resolved range leaves the process - is compared with integer-nanosecond arithmetic over the generated flags, malformed values or a non-positive step must be rejected, and an accepted explicit step must not be zero (a zero step turns a start == end query into an instant query whose look-back shows in since). Only the facets that reach a seam are decided: the value of the default step or of a non-zero accepted step, and sub-second agreement of spellings, are not observable there and are not claimed.",
@@ -35,9 +35,9 @@ CLAIMS = {
   technique="deterministic simulation: real CLI under a simulated clock against a simulated daemon; arithmetic oracle on the recorded transport options"),
  "C18": dict(
   level="exploration", ref="DESIGN.md §3.7",
-  text="The same plan is re-executed >= 4 times varying only what the simulator owns: release order of the concurrent requests (all n! for small n), read fragmentation, map and stream order at the seams; canonical results, error outcome and - through the real command - stdout bytes must agree. In a share of the executions every Read and Close parks as well and the PRNG picks among all parked operations. A sample of plans (and every plan run under cache pressure - thousands of throw-away queries with distinct literals, regexes and templates before or between the evaluations) is also answered by a fresh process, and the answers must agree (history independence). A second phase runs the generator under the race detector with whole batches of parked calls released at once. Sampling: evidence, not proof; the race verdict is the Go detector's.",
+  text="The same plan is re-executed >= 4 times varying only what the simulator owns: release order of the concurrent requests (all n! for small n), read fragmentation, map and stream order at the seams; canonical results, error outcome and - through the real command - stdout bytes must agree. In a share of the executions every Read and Close parks as well and the PRNG picks among all parked operations. A sample of plans (and every plan run under cache pressure - thousands of throw-away queries with distinct literals, regexes and templates before or between the evaluations) is also answered by a fresh process, and the answers must agree (history independence). A second phase runs the generator under the race detector with whole batches of parked calls released at once. Sampling: evidence, not proof; the race verdict is the Go detector's. In 30% of the engine-level plans some repetitions run on a used Engine (it evaluated this query or a sibling before, inside the same bubble) and must agree with the fresh-engine reference.",
   note="Trusted: canonicalisation (streams/series sorted by label rendering, entries of a stream as a multiset), exclusion of constructs whose answer LogQL leaves open (topk/bottomk ties, sort) and of inexact float sums. Race replay re-runs the race binary; Go gives no formal guarantee that a race is reported on every run.",
-  technique="deterministic simulation: self-agreement across seeded schedules (opens, reads, closes), fragmentations and map orders, and with a fresh process after cache pressure; race-detector phase with parallel release"),
+  technique="deterministic simulation: self-agreement across seeded schedules (opens, reads, closes), fragmentations and map orders, and with a fresh process after cache pressure; race-detector phase with parallel release; repetitions on a long-lived Engine"),
 }
 
 NA = {
